@@ -16,8 +16,8 @@ the stored values of an array (`data`, row-major, exact rationals for the double
 of `ticks`, of `labels`, and the `index` attribute of a link group.
 
 Every function mirrors the Python method named in its comment, in the code's own order of checks
-and writes (the code as of the two `fix:` commits "a refused RangeDimension.link_data_array …
-deleted the dimension's ticks").  Not modelled: links to a `DataFrame` column (`link_data_frame`),
+and writes (the code as of the `fix:` commit "a refused RangeDimension.link_data_array /
+link_data_frame deleted the dimension's ticks": validation first, the ticks go once the link exists).  Not modelled: links to a `DataFrame` column (`link_data_frame`),
 the pre-1.5 "alias range dimension" layout (`is_alias and not has_link`, unreachable through the
 current API), `delete_dimensions`, polynomial calibration (the link reads the *stored* values:
 `DimensionLink.linked_data` is `h5group.get_data("data")`).
